@@ -93,6 +93,12 @@ def daStep (s : Arrays.Dynamic.Arr Nat) (ws : List String) : Arrays.Dynamic.Arr 
   | ["new", c] => (Arrays.Dynamic.init (nat! c) 0, "ok")
   | ["emplace", v] =>
     if s.count < s.cap then let r := Arrays.Dynamic.emplace s (nat! v); (r.1, s!"i={r.2} n={r.1.count}") else (s, "rejected")
+  | ["append", v] =>
+    if s.count < s.cap then let r := Arrays.Dynamic.emplace s (nat! v); (r.1, s!"n={r.1.count}") else (s, "rejected")
+  | ["appendmv", v] =>
+    if s.count < s.cap then let r := Arrays.Dynamic.emplace s (nat! v); (r.1, s!"n={r.1.count}") else (s, "rejected")
+  | "appendall" :: vs =>
+    if s.count + vs.length ≤ s.cap then let r := Arrays.Dynamic.appendAll s (vs.map (fun v => nat! v)); (r, s!"n={r.count}") else (s, "rejected")
   | ["get", i] => if nat! i < s.count then (s, s!"v={Arrays.Dynamic.get s 0 (nat! i)}") else (s, "rejected")
   | ["clear"] => (Arrays.Dynamic.clear s, "ok")
   | ["empty"] => (s, s!"e={if Arrays.Dynamic.empty s then 1 else 0} n={s.count}")
